@@ -1,6 +1,8 @@
 import DoitModel.Proofs.ActFrame
 import DoitModel.Proofs.ActTask
 import DoitModel.Proofs.ActFwd
+import DoitModel.Proofs.ActMode
+import DoitModel.Proofs.ActModeBuf
 /-! # C17 — action outcomes are classified exactly and output is captured intact
 
 Property theorems only (model: `Model/Act.lean`; helpers: `Proofs/Act.lean`, `Proofs/ActFrame.lean`,
@@ -335,6 +337,173 @@ theorem live_rule (v : Nat) (hv : v ≤ 2) :
   | 1, _ => rfl
   | 2, _ => rfl
 
+
+/-! ## `io.capture` off as a mode of the stream machine (`Mode`) -/
+
+/-- **Both swap disciplines, mixed and nested to any depth, from any state**: after a scenario of executions
+    with capture on (`save; set; …; restore; read`) and capture off (`if out: swap … finally: if out: restore`)
+    the process-wide cell holds the object it held before and no `restore` found its saved stream missing. -/
+theorem restore_forest_mode (f : Mode.Forest) (o : Option Act) (s : Fwd.St)
+    (hn : (Mode.started (Mode.flatten o f)).Nodup) :
+    (Mode.run s (Mode.flatten o f)).cell = s.cell ∧ (Mode.run s (Mode.flatten o f)).unbound = s.unbound :=
+  ⟨(Mode.frame f o s hn).cell, (Mode.frame f o s hn).unbound⟩
+
+/-- **capture off**: one execution of `PythonAction.execute` with `io.capture` false, at any verbosity (`on`),
+    whose callable runs any scenario `body` (own writes, nested executions of either mode) and ends in any way
+    (normal return, failure, `Exception`, `BaseException`: `try/finally`, same steps), started in any state: the
+    process-wide stream is the one before the call, no saved stream was missing, and `action.out` is what it was
+    (`None` for a fresh action: nothing is captured). -/
+theorem restore_exec_nocapture (a : Act) (on : Bool) (body : Mode.Forest) (s : Fwd.St)
+    (hn : (Mode.started (Mode.execNC a on body)).Nodup) :
+    (Mode.run s (Mode.execNC a on body)).cell = s.cell ∧
+    (Mode.run s (Mode.execNC a on body)).unbound = s.unbound ∧
+    (Mode.run s (Mode.execNC a on body)).out a = s.out a := by
+  have he : Mode.execNC a on body = Mode.flatten none (.exec a on false body .nil) := by
+    simp [Mode.execNC, Mode.flatten]
+  rw [he] at hn ⊢
+  have F := Mode.frame (.exec a on false body .nil) none s hn
+  refine ⟨F.cell, F.unbound, Mode.out_only_read _ s a ?_⟩
+  intro hr
+  simp only [Mode.flatten, Mode.started_exec, List.nodup_cons, List.mem_append, not_or] at hn
+  simp only [Mode.flatten, Mode.reads_append, List.mem_append] at hr
+  rcases hr with ((hr | hr) | hr) | hr
+  · simp [Mode.pre, Mode.reads] at hr
+  · exact hn.1.1 (Mode.reads_sub_started body _ a hr)
+  · simp [Mode.post, Mode.reads] at hr
+  · simp [Mode.reads] at hr
+
+/-- **capture off passes everything through**: when the stream in the cell reaches the original stream (top
+    level, or inside executions that are all shown live), every token the callable of a capture-off execution
+    writes itself is on the original stream afterwards, in order, exactly once -- for *every* verbosity `on`
+    (with capture off the verbosity only decides whether `sys.stdout` is re-bound to the same object). -/
+theorem nocapture_passthrough (a : Act) (on : Bool) (body : Mode.Forest) (s : Fwd.St)
+    (hn : (Mode.started (Mode.execNC a on body)).Nodup) (hr : Fwd.reachesOrig s.cell = true) :
+    Fwd.own a (Mode.run s (Mode.execNC a on body)).origLog
+      = Fwd.own a s.origLog ++ Mode.writesOf a (Mode.flatten (some a) body) := by
+  have he : Mode.execNC a on body = Mode.flatten none (.exec a on false body .nil) := by
+    simp [Mode.execNC, Mode.flatten]
+  rw [he] at hn
+  simp only [Mode.flatten, Mode.started_exec, List.nodup_cons, List.mem_append, not_or, List.nodup_append] at hn
+  obtain ⟨⟨haB, _⟩, hnB, _, _⟩ := hn
+  have P := Mode.pre_nc s a on
+  have FB := Mode.frame body (some a) (Mode.run s (Mode.pre a on false)) hnB
+  have Q := Mode.post_nc (Mode.run (Mode.run s (Mode.pre a on false)) (Mode.flatten (some a) body)) a s.cell
+    (by rw [FB.cell, P.1]) (by rw [FB.keepLive a haB, FB.keepSaved a haB]; exact P.2.1)
+  simp only [Mode.execNC, Mode.run_append]
+  rw [Q.2.2.2.2.1, FB.pass a haB, P.1, P.2.2.2.2, hr]
+  rfl
+
+/-- the capture-off execution from the initial state: the original stream holds exactly the callable's own
+    writes (as far as `a`'s tokens go), whatever the verbosity -/
+theorem nocapture_passthrough_init (a : Act) (on : Bool) (body : Mode.Forest)
+    (hn : (Mode.started (Mode.execNC a on body)).Nodup) :
+    Fwd.own a (Mode.run Fwd.St.init (Mode.execNC a on body)).origLog = Mode.writesOf a (Mode.flatten (some a) body) := by
+  have := nocapture_passthrough a on body Fwd.St.init hn rfl
+  simpa [Fwd.St.init, Fwd.own] using this
+
+/-- **Captured intact in both modes at once**: for every scenario forest mixing capturing and non-capturing
+    executions to any depth (distinct ids), from the initial state: the cell is the original stream again, no saved
+    stream was missing, every *capturing* execution ends with `out` holding exactly its own writes in order among
+    the tokens of its buffer (text forwarded by nested executions -- live copies of capturing ones, everything of
+    non-capturing ones -- may be interleaved, never lost or reordered), and every *non-capturing* execution ends
+    with `out = None`. -/
+theorem captured_intact_mode (f : Mode.Forest) (hn : (Mode.started (Mode.flatten none f)).Nodup) :
+    (Mode.run Fwd.St.init (Mode.flatten none f)).cell = .orig ∧
+    (Mode.run Fwd.St.init (Mode.flatten none f)).unbound = false ∧
+    (∀ b, b ∈ Mode.reads (Mode.flatten none f) →
+      ∃ l, (Mode.run Fwd.St.init (Mode.flatten none f)).out b = some l ∧
+        Fwd.own b l = Mode.writesOf b (Mode.flatten none f)) ∧
+    (∀ b, b ∉ Mode.reads (Mode.flatten none f) → (Mode.run Fwd.St.init (Mode.flatten none f)).out b = none) := by
+  have F := Mode.frame f none Fwd.St.init hn
+  have B := Mode.bframe f none Fwd.St.init hn (by intro b _; exact ⟨rfl, by simp [Fwd.St.init, Fwd.bufsOf]⟩)
+    (by intro a ha; cases ha)
+  exact ⟨F.cell, F.unbound, B.outs, fun b hb => Mode.out_only_read _ _ b hb⟩
+
+/-- **Overlapping executions with capture off are harmless** (the contrast to `overlap_counterexample`, F-C17a):
+    steps of capture-off executions in *any* order -- any number of threads, any interleaving, not even the program
+    order of a thread is needed -- leave the cell holding the original stream, put every write on the original
+    stream in the order it happened, and set no `out`.  With capture off nothing but the object already in the cell
+    is ever stored into it. -/
+theorem nocapture_overlap_harmless (evs : List Mode.Ev) (h : Mode.ncOnly evs = true) :
+    (Mode.run Fwd.St.init evs).cell = .orig ∧
+    (Mode.run Fwd.St.init evs).origLog = Mode.allWrites evs ∧
+    (∀ a, (Mode.run Fwd.St.init evs).out a = none) := by
+  have I := Mode.nc_only_inv evs Fwd.St.init h rfl (fun _ => Or.inr rfl) (fun _ => Or.inl rfl)
+  refine ⟨I.1, by simpa [Fwd.St.init] using I.2.1, fun a => by rw [I.2.2]; rfl⟩
+
+/-- the machine with the live copy (`restore_nested_live`) is the all-capture fragment of `Mode` -/
+theorem mode_extends_fwd (f : Fwd.Forest) (o : Option Act) (s : Fwd.St) :
+    Mode.run s (Mode.flatten o (Mode.ofFwdForest f)) = Fwd.run s (Fwd.flatten o f) := by
+  rw [Mode.flatten_ofFwd, Mode.run_ofFwd]
+
+/-- **The outcome class does not depend on the capture mode**: for a python-action whose body uses the stream
+    operations every stream supports (`write`, `print`, `flush`, `isatty`) the whole `ARes` (outcome, result,
+    values) is the same with capture on and off; for a cmd-action the outcome is the same for every `io.capture`
+    value.  The hypothesis is needed and the code's behaviour: `writelines` (like `.buffer`, `.encoding`) exists on
+    the caller's stream and not on the `Writer`, so that body is an error with capture on and fine with capture off. -/
+theorem capture_mode_independent_classification :
+    (∀ (l1 l2 : Bool) (ops : List StreamOp) (ret : PyRet) (kw : Bool), (∀ op ∈ ops, op.common = true) →
+      pyExec kw (pyBody true l1 ops ret) = pyExec kw (pyBody false l2 ops ret)) ∧
+    (∀ (c1 c2 : Cap) (e : Bool) (so : Option Nat) (rc : Int) (out err : List Char),
+      (cmdExec e c1 so rc out err).outcome = (cmdExec e c2 so rc out err).outcome) ∧
+    (classifyPy (pyBody true false [.writelines] .rTrue) = .error ∧
+     classifyPy (pyBody false false [.writelines] .rTrue) = .ok) := by
+  refine ⟨?_, ?_, by decide⟩
+  · intro l1 l2 ops ret kw h
+    have hb : ∀ c l, (bodyRun c l ops).2 = false := by
+      intro c l
+      induction ops with
+      | nil => rfl
+      | cons op rest ih =>
+        have hop := h op (by simp)
+        have ih' := ih (fun o ho => h o (by simp [ho]))
+        cases op <;> simp [StreamOp.common] at hop <;> simp [bodyRun, opEffect, ih']
+    simp [pyBody, hb]
+  · intro c1 c2 e so rc out err
+    cases e
+    · rw [(cmd_exec c1 so rc out err).1, (cmd_exec c2 so rc out err).1]
+    · simp [cmdExec]
+
+/-- what the task asked for — `save_out` stores the same value whatever `io.capture` is — is **not** what
+    `CmdAction.execute` does (`self.values[self.save_out] = self.out`, and `self.out` is only set under
+    `if capture_io:`): see `save_out_independent_of_capture_refuted` -/
+def save_out_independent_of_capture_full : Prop :=
+  ∀ (c1 c2 : Cap) (so : Option Nat) (rc : Int) (out err : List Char),
+    (cmdExec false c1 so rc out err).values = (cmdExec false c2 so rc out err).values
+
+/-- as coded: with capture off a successful `save_out` action binds its key to `None` -/
+theorem save_out_independent_of_capture_refuted : ¬ save_out_independent_of_capture_full := by
+  intro h
+  have := h .yes .no (some 1) 0 ['a'] []
+  simp [cmdExec, classifyCmd] at this
+
+/-- what does hold for every `io.capture` value: *whether* and under *which key* `save_out` binds does not depend
+    on the capture mode (bound iff the action succeeded); the bound value is the process's stdout when capturing
+    and `None` otherwise; `result` is `None` without capture -/
+theorem save_out_independent_of_capture_partial (c1 c2 : Cap) (so : Option Nat) (rc : Int) (out err : List Char) :
+    ((cmdExec false c1 so rc out err).values.map (·.1) = (cmdExec false c2 so rc out err).values.map (·.1)) ∧
+    (∀ k, so = some k → rc = 0 →
+      (cmdExec false c1 so rc out err).values = [(k, if c1 = .yes then Val.text out else Val.none)]) ∧
+    (c1 ≠ .yes → (cmdExec false c1 so rc out err).result = .none) := by
+  refine ⟨?_, ?_, (cmd_exec c1 so rc out err).2.2.2.1⟩
+  · simp only [cmdExec]; cases classifyCmd rc <;> cases so <;> simp
+  · intro k hk h0
+    have : classifyCmd rc = .ok := (classify_cmd rc).1.mpr h0
+    simp [cmdExec, hk, this]
+
+/-- **what reaches the live stream with capture off**: a python-action's text is shown at every verbosity and
+    never captured (verbosity only matters when capturing); a cmd-action with `io.capture` False hands the live
+    stream to the process when verbosity gives one and lets it inherit the descriptor otherwise -- shown or
+    inherited, never both, never captured; with `io.capture` None (any other falsy value) everything goes to
+    `os.devnull`. -/
+theorem live_rule_nocapture (v : Option Nat) (live : Bool) :
+    pyRoute false live = ⟨false, true, false⟩ ∧
+    pyRoute false (getOutErr v).1 = pyRoute false (getOutErr none).1 ∧
+    pyRoute false (getOutErr v).2 = pyRoute false (getOutErr none).2 ∧
+    cmdRoute .no live = ⟨false, live, !live⟩ ∧
+    cmdRoute .devnull live = ⟨false, false, false⟩ := by
+  refine ⟨rfl, rfl, rfl, rfl, rfl⟩
+
 /-! ## non-vacuity -/
 
 /-- a three-deep nested scenario with writes before, between and after the nested executions satisfies the
@@ -373,5 +542,55 @@ example :
 example : (taskExecute [pyExec false (.rStr ['a']), pyExec false .rTrue]).result = .none := by decide
 
 example : classifyCmd 125 = .failed ∧ classifyCmd 126 = .error ∧ classifyCmd (-9) = .failed := by decide
+
+/-- capture off at work: action 0 (capture off, quiet) writes, runs action 1 (capture on, live) and action 2
+    (capture off, live) and writes again: everything of 0 and 2 and the live copy of 1 is on the original stream in
+    order, only 1 has an `out`, the cell is restored -/
+example :
+    let body : Mode.Forest := .write 1 (.exec 1 true true (.write 2 .nil) (.exec 2 true false (.write 3 .nil) (.write 4 .nil)))
+    (Mode.started (Mode.execNC 0 false body)).Nodup ∧
+    (Mode.run Fwd.St.init (Mode.execNC 0 false body)).cell = .orig ∧
+    (Mode.run Fwd.St.init (Mode.execNC 0 false body)).origLog = [(0, 1), (1, 2), (2, 3), (0, 4)] ∧
+    (Mode.run Fwd.St.init (Mode.execNC 0 true body)).origLog = [(0, 1), (1, 2), (2, 3), (0, 4)] ∧
+    (Mode.run Fwd.St.init (Mode.execNC 0 false body)).out 0 = none ∧
+    (Mode.run Fwd.St.init (Mode.execNC 0 false body)).out 1 = some [(1, 2)] ∧
+    (Mode.run Fwd.St.init (Mode.execNC 0 false body)).out 2 = none := by
+  decide
+
+/-- a capture-off execution inside a quiet capturing one writes into that action's buffer, not to the original -/
+example :
+    let f : Mode.Forest := .exec 0 false true (.write 1 (.exec 1 true false (.write 2 .nil) .nil)) .nil
+    (Mode.run Fwd.St.init (Mode.flatten none f)).cell = .orig ∧
+    (Mode.run Fwd.St.init (Mode.flatten none f)).out 0 = some [(0, 1), (1, 2)] ∧
+    (Mode.run Fwd.St.init (Mode.flatten none f)).origLog = [] := by
+  decide
+
+example : (cmdExec false .no (some 1) 0 ['a'] []).values = [(1, .none)] ∧
+    (cmdExec false .yes (some 1) 0 ['a'] []).values = [(1, .text ['a'])] := by decide
+
+example : (cmdRoute .no false).inherited = true ∧ (cmdRoute .no true).shown = true ∧ (pyRoute false false).shown = true := by
+  decide
+
+example : pyExec false (pyBody true false [.write, .flush, .print] (.rStr ['x']))
+    = pyExec false (pyBody false true [.write, .flush, .print] (.rStr ['x'])) := by decide
+
+/-- `captured_intact_mode` is not vacuous: a capturing, live action 0 runs a non-capturing action 1 which runs a
+    capturing quiet action 2 -/
+example :
+    let f : Mode.Forest := .exec 0 true true (.write 1 (.exec 1 false false (.write 2 (.exec 2 false true (.write 3 .nil) (.write 4 .nil))) (.write 5 .nil))) .nil
+    (Mode.started (Mode.flatten none f)).Nodup ∧ Mode.reads (Mode.flatten none f) = [2, 0] ∧
+    (Mode.run Fwd.St.init (Mode.flatten none f)).out 0 = some [(0, 1), (1, 2), (1, 4), (0, 5)] ∧
+    (Mode.run Fwd.St.init (Mode.flatten none f)).out 1 = none ∧
+    (Mode.run Fwd.St.init (Mode.flatten none f)).out 2 = some [(2, 3)] ∧
+    (Mode.run Fwd.St.init (Mode.flatten none f)).origLog = [(0, 1), (1, 2), (1, 4), (0, 5)] := by
+  decide
+
+/-- the interleaving of `overlap_counterexample` with capture off (both live): harmless -/
+example :
+    let evs : List Mode.Ev := [.getlive 0 true, .swapNC 0, .getlive 1 true, .swapNC 1, .write 0 7, .restoreNC 0,
+                               .write 1 8, .restoreNC 1]
+    Mode.ncOnly evs = true ∧ (Mode.run Fwd.St.init evs).cell = .orig ∧
+    (Mode.run Fwd.St.init evs).origLog = [(0, 7), (1, 8)] := by
+  decide
 
 end DoitModel.C17
